@@ -16,6 +16,7 @@ pub enum LT {
     Tup(Vec<LT>),
     Enum(String),   // enum with unit variants only, emitted as a Lean inductive
     Struct(String), // a struct reached through a place path (never a Lean value by itself)
+    Rec(String, Vec<(String, LT)>), // a small plain-data struct carried as a value: the tuple of its fields, in declaration order
     Opaque,         // anything else: carried as the source text
     OpFn,           // `fn(f64, f64) -> Value`: an operator closure handed to binary_op_impl
     VmT,            // the abstract interpreter state
@@ -44,6 +45,7 @@ impl LT {
                 }
             }
             LT::Enum(n) => format!("Fns.{}", n),
+            LT::Rec(_, fs) => format!("({})", fs.iter().map(|(_, t)| t.lean()).collect::<Vec<_>>().join(" × ")),
             LT::Struct(_) | LT::Opaque => "String".into(),
             LT::OpFn => "(UInt64 → UInt64 → Rs.M Rs.Value)".into(),
             LT::VmT => "Rs.Vm".into(),
@@ -73,6 +75,9 @@ fn int_ty(name: &str) -> Option<LT> {
         _ => return None,
     })
 }
+
+/// Plain-data structs (every field a modelled value) that are carried as Lean tuples.
+const RECORDS: &[&str] = &["Local", "Upvalue"];
 
 const TRANSPARENT: &[&str] = &["Gc", "Root", "UniqueRoot", "RefCell", "Ref", "RefMut", "Box", "Pin", "Cell"];
 
@@ -242,6 +247,17 @@ impl<'a> Cx<'a> {
                     "Vec" if args.len() == 1 => LT::List(Box::new(self.conv(&args[0]))),
                     n if TRANSPARENT.contains(&n) && args.len() == 1 => self.conv(&args[0]),
                     n => {
+                        if RECORDS.contains(&n) {
+                            if let Some(v) = self.db.structs.get(n) {
+                                if v.len() == 1 {
+                                    let sd = v[0].clone();
+                                    let fields: Vec<(String, LT)> = sd.fields.iter().map(|(f, t)| (f.clone(), self.conv(t))).collect();
+                                    if fields.len() >= 2 && fields.iter().all(|(_, t)| !matches!(t, LT::Struct(_) | LT::Opaque)) {
+                                        return LT::Rec(n.to_string(), fields);
+                                    }
+                                }
+                            }
+                        }
                         if self.db.structs.contains_key(n) {
                             LT::Struct(n.to_string())
                         } else if let Some(es) = self.db.enums.get(n) {
@@ -428,7 +444,7 @@ impl<'a> Cx<'a> {
                 let name = m.method.to_string();
                 match name.as_str() {
                     "borrow" | "borrow_mut" | "as_ref" | "as_mut" | "get" | "as_gc" | "iter" => Some(base),
-                    "len" | "is_none" | "is_some" | "is_empty" | "to_ne_bytes" | "trunc" | "unwrap" | "clone" => None,
+                    "len" | "is_none" | "is_some" | "is_empty" | "to_ne_bytes" | "trunc" | "unwrap" | "clone" | "enumerate" | "rev" => None,
                     _ => Some(format!("{}.{}()", base, name)),
                 }
             }
